@@ -12,6 +12,25 @@ LEVEL = "model_checking"
 MC = {}
 
 
+def synth_case(cid, inputs, exprs, retbits, unc, ev, gates, nq, qmap):
+    names = [n for n, _ in exprs]
+    return {"id": cid, "inputs": inputs, "exprs": exprs, "unc": unc, "ev": ev,
+            "rets": sorted({n for n in names if n.startswith("_ret")}),
+            "temps": sorted({n for n in names if n.startswith("__")}),
+            "retbits": retbits, "gates": [{"w": g["w"]} for g in gates], "nq": nq, "qmap": qmap}
+
+
+def attribute(sc, scases):
+    """refinement binding for a set of recorded compiles: {id: (verdict, triggers)} where triggers name the unsound
+    steps the transcribed algorithm itself reports, and are empty unless it reproduces the circuit exactly"""
+    sverd, _ = tlc.run_cases("Trace_Synth", scases, sc, timeout=2400, heap="4g")
+    out = {}
+    for c in scases:
+        sv = sverd[c["id"]]
+        out[c["id"]] = (sv, tuple("synth-model:" + f for f in sorted(sv[1]["__set__"])) if sv[0] == "conform" else ())
+    return out
+
+
 def build_jobs(pid, t):
     """Every program x {default, fast} x {unc on, off} (C02); unc on only for C03/C06."""
     sources = progs.corpus(pid, t, seed())
